@@ -86,7 +86,12 @@ Pool == <<
 >>
 \* a statement can only be fed when the names it uses are bound: sessions are generated freely and the
 \* specification classifies ill-formed ones as "stuck" (unbound name) — those are expected to be rejected.
-Sessions == UNION {[1..n -> 1..Len(Pool)] : n \in 1..MaxLen}
+\* all sequences of up to three statements of the whole pool; with MaxLen = 4 (thorough tier) also all sequences of four
+\* statements of the core pool (the first CoreLen statements: constants, hidden values, cells, closures, functions, a failing
+\* input) - four statements of the whole pool would be 2.8 million sessions
+CoreLen == 12
+Sessions == UNION {[1..n -> 1..Len(Pool)] : n \in 1..(IF MaxLen < 3 THEN MaxLen ELSE 3)}
+            \cup (IF MaxLen >= 4 THEN [1..4 -> 1..CoreLen] ELSE {})
 SessSeq == SetToSeq(Sessions)
 
 Stm(s, i) == Pool[s[i]]
